@@ -2,6 +2,7 @@ package props
 
 import (
 	"fmt"
+	"go/token"
 	"go/types"
 	"sort"
 
@@ -140,4 +141,164 @@ func c03PqmrWhole(c *core.Ctx, r *core.Report) {
 			"a persistent-query result file can be back-filled without the query window being known to enclose every block of the segment (the predicate is not handed SearchMetadata.BlockSummaries, or does not walk all of it): the file then covers only the blocks this query searched, and later wider runs of the query trust it for the whole segment and lose the other blocks' events")
 	}
 	r.Floor("PQMRWHOLE", "accepting returns of shouldBackFillPQMR", n, 1)
+}
+
+// (11) OPENRANGE — the time range recorded for an open segment decides whether a time-bounded query looks at the
+// segment at all and whether the pre-computed statistics may answer for it ("fully enclosed").  Late or back-filled
+// events make a later block older than the first one, so BOTH bounds must be able to move on every flush: among the
+// stores of the segment's range in updateUnrotatedBlockInfo that are not first-time initialisations (governed by a nil
+// test of the range or by the creation of the segment's record), one carries the flush's earliest time into the start
+// bound and one carries its latest time into the end bound.
+func c03OpenRange(c *core.Ctx, r *core.Report) {
+	fn := c.Fn(pkgWriter, "updateUnrotatedBlockInfo")
+	rangeF := c.Field(pkgWriter, "UnrotatedSegmentInfo.tsRange")
+	startF := c.Field(pkgDtu, "TimeRange.StartEpochMs")
+	endF := c.Field(pkgDtu, "TimeRange.EndEpochMs")
+	var earliest, latest ssa.Value
+	for _, p := range fn.Params {
+		switch p.Name() {
+		case "earliestTs":
+			earliest = p
+		case "latestTs":
+			latest = p
+		}
+	}
+	if earliest == nil || latest == nil {
+		panic(core.AnchorError{What: "earliestTs / latestTs parameters of updateUnrotatedBlockInfo"})
+	}
+	derives := func(v, from ssa.Value) bool {
+		for i := 0; i < 3; i++ {
+			if v == from {
+				return true
+			}
+			if cv, ok := v.(*ssa.Convert); ok {
+				v = cv.X
+				continue
+			}
+			break
+		}
+		return v == from
+	}
+	firstTime := func(b *ssa.BasicBlock) bool {
+		for x := b; x != nil; x = x.Idom() {
+			idom := x.Idom()
+			if idom == nil {
+				break
+			}
+			ifi, ok := core.LastIf(idom)
+			if !ok || !(idom.Succs[0] == x || idom.Succs[1] == x) || len(x.Preds) != 1 {
+				continue
+			}
+			switch cnd := ifi.Cond.(type) {
+			case *ssa.BinOp:
+				// range == nil  (taken edge: the equal one)
+				if core.IsNilConst(cnd.Y) || core.IsNilConst(cnd.X) {
+					other := cnd.X
+					if core.IsNilConst(cnd.X) {
+						other = cnd.Y
+					}
+					if ld, ok := other.(*ssa.UnOp); ok {
+						if fa, ok := ld.X.(*ssa.FieldAddr); ok && core.FieldOfAddr(fa) == rangeF {
+							onEq := (cnd.Op == token.EQL && idom.Succs[0] == x) || (cnd.Op == token.NEQ && idom.Succs[1] == x)
+							if onEq {
+								return true
+							}
+						}
+					}
+				}
+			case *ssa.Extract:
+				// !ok of the lookup of the segment's record
+				if lk, ok := cnd.Tuple.(*ssa.Lookup); ok && lk.CommaOk && idom.Succs[1] == x {
+					return true
+				}
+			}
+		}
+		return false
+	}
+	startMoves, endMoves := false, false
+	n := 0
+	for _, b := range fn.Blocks {
+		for _, in := range b.Instrs {
+			st, ok := in.(*ssa.Store)
+			if !ok {
+				continue
+			}
+			fa, ok := st.Addr.(*ssa.FieldAddr)
+			if !ok {
+				continue
+			}
+			f := core.FieldOfAddr(fa)
+			if f != startF && f != endF {
+				continue
+			}
+			// the TimeRange object must be (or become) the segment's range: a fresh object stored into tsRange, or the loaded range itself
+			isRange := false
+			if al, ok := fa.X.(*ssa.Alloc); ok && al.Referrers() != nil {
+				for _, u := range *al.Referrers() {
+					if s2, ok := u.(*ssa.Store); ok && s2.Val == ssa.Value(al) {
+						if fa2, ok := s2.Addr.(*ssa.FieldAddr); ok && core.FieldOfAddr(fa2) == rangeF && !firstTime(s2.Block()) {
+							isRange = true
+						}
+					}
+				}
+			}
+			if ld, ok := fa.X.(*ssa.UnOp); ok {
+				if fa2, ok := ld.X.(*ssa.FieldAddr); ok && core.FieldOfAddr(fa2) == rangeF && !firstTime(b) {
+					isRange = true
+				}
+			}
+			if !isRange {
+				continue
+			}
+			n++
+			if f == startF && derives(st.Val, earliest) {
+				startMoves = true
+			}
+			if f == endF && derives(st.Val, latest) {
+				endMoves = true
+			}
+		}
+	}
+	r.Floor("OPENSEG", "bound stores of the open segment's time range that run on later flushes", n, 2)
+	r.Check(startMoves, "OPENSEG", shortFn(fn)+":range-start-follows-every-flush", c.Pos(fn.Pos()),
+		"a store that is not a first-time initialisation carries the flush's earliest time into the start bound",
+		"after the first block the start of the open segment's recorded time range never takes the flush's earliest time: events that arrive late (older than the first block) lie outside the recorded range, so time-bounded queries skip the open segment and the statistics fast path treats it as fully enclosed when it is not")
+	r.Check(endMoves, "OPENSEG", shortFn(fn)+":range-end-follows-every-flush", c.Pos(fn.Pos()),
+		"a store that is not a first-time initialisation carries the flush's latest time into the end bound",
+		"after the first block the end of the open segment's recorded time range never takes the flush's latest time")
+}
+
+// (12) SSTNUMERIC — the pre-computed segment statistics (.sst, filled at ingest by addSegStatsStrIngestion) and the
+// statistics computed from records at query time (stats.AddSegStatsStr) must agree on which string values are
+// numbers, or the same `stats` query gives different answers depending on whether the .sst fast path is taken.  The
+// record-level side asks the float parser for every value; so does the ingest side: every path through
+// addSegStatsStrIngestion to its return passes the float parser (no pre-filter on the bytes decides first).
+func c03SstNumeric(c *core.Ctx, r *core.Report) {
+	fn := c.Fn(pkgWriter, "addSegStatsStrIngestion")
+	var parses []ssa.Instruction
+	for _, ci := range core.CallsIn(fn) {
+		if f := core.CalleeFunc(ci); f != nil && (f.Name() == "FastParseFloat" || f.Name() == "ParseFloat") {
+			parses = append(parses, ci)
+		}
+	}
+	r.Floor("SIBLING", "float parses in addSegStatsStrIngestion", len(parses), 1)
+	isParse := map[ssa.Instruction]bool{}
+	for _, p := range parses {
+		isParse[p] = true
+	}
+	var bypass *ssa.Return
+	core.WalkForward(fn, nil, func(in ssa.Instruction) bool {
+		if isParse[in] {
+			return false
+		}
+		if ret, ok := in.(*ssa.Return); ok && bypass == nil {
+			bypass = ret
+		}
+		return true
+	})
+	if bypass != nil {
+		r.Violation("SIBLING", shortFn(fn)+":every-string-value-is-offered-to-the-float-parser", c.Pos(bypass.Pos()), "a string value can be recorded in the ingest-time segment statistics without having been offered to the float parser: values the record-level statistics treat as numbers (\"+5\", \".5\") are kept as text in the .sst, and a statistics query answers differently when it is served from the .sst")
+	} else {
+		r.OK("SIBLING", shortFn(fn)+":every-string-value-is-offered-to-the-float-parser", c.Pos(fn.Pos()), "every path to the return passes the float parser")
+	}
 }
